@@ -101,12 +101,17 @@ Theorem C01_stale_persister_refuted :
 Proof. exact stale_persister_refuted. Qed.
 Print Assumptions C01_stale_persister_refuted.
 
+Theorem C01_forgets_persister_refuted :
+  exists g bs r1 r2, run (only 8) o_id r1 g bs <> run (only 8) o_id r2 g bs.
+Proof. exact forgets_persister_refuted. Qed.
+Print Assumptions C01_forgets_persister_refuted.
+
 (** partial: status and SERVICE events of opaque transactions (transfers, governance, XVM/EVM)
     are inputs of the model; equality of results is proved for equal inputs only.  Also not
     represented (see design.d/C01.md): data races, scheduler-dependent behaviour inside
     libraries, Go runtime nondeterminism outside the site inventory. *)
 Theorem C01_opaque_execution_partial :
-  forall (g : list (N * val)) (pre post : list block) (ok touch : bool) (evs : list (N * svcrec))
+  forall (g : list (N * val)) (pre post : list block) (ok : bool) (touch : list N) (evs : list (N * svcrec))
          (o1 o2 : oracle) (r1 r2 : nat -> bool),
   oracle_ok o1 -> oracle_ok o2 ->
   run cfg_fixed o1 r1 g (pre ++ blk [TGov ok touch evs; TOpaque ok] :: post) =
@@ -123,6 +128,9 @@ Example C01_fixed_timeout_example :
   map r_timeout_counter (run cfg_fixed rev_oracle before1 w_genesis w_timeout) =
   [[]; []; []; [(0, [mk_id 0 16 1; mk_id 0 32 1])]].
 Proof. exact fixed_timeout_example. Qed.
+Example C01_fixed_forgets_example :
+  map (fun r => map rc_ok (r_receipts r)) (run cfg_fixed o_id before1 w_genesis w_forgets) = [[]; [true]; [true]].
+Proof. exact fixed_forgets_example. Qed.
 Example C01_fixed_cache_example :
   map (fun r => map rc_ok (r_receipts r)) (run cfg_fixed o_id never w_genesis w_cache) = [[]; [false]; [true]].
 Proof. exact fixed_cache_example. Qed.
